@@ -87,7 +87,7 @@ class Worker:
 
 
 class Scheduler:
-    def __init__(self, bodies, traced_files, preemptions=(), start_order=None, max_steps=200000):
+    def __init__(self, bodies, traced_files, preemptions=(), start_order=None, max_steps=200000, line_funcs=None):
         self.workers = [Worker(i, b) for i, b in enumerate(bodies)]
         self.traced = tuple(traced_files)
         self.preempt = {}
@@ -101,6 +101,9 @@ class Scheduler:
         self.max_steps = max_steps
         self.trace_points = []   # (step, thread, file:line) sample for evidence
         self.switches = 0
+        # None: every line of the traced files is a yield point; otherwise every call/return of a traced function
+        # is one, and additionally every line of the functions named here
+        self.line_funcs = line_funcs
 
     # ---- identity ---------------------------------------------------------------
     def me(self):
@@ -108,10 +111,17 @@ class Scheduler:
 
     # ---- token passing -------------------------------------------------------------
     def _pick_next(self, after=None, prefer=None):
+        """next thread to run: the preferred one if runnable, otherwise round-robin in `order` starting behind
+        `after` (so that after a pre-empting thread has finished, the thread FOLLOWING it in the order runs before
+        the pre-empted one resumes)"""
         if prefer is not None and self.workers[prefer].state == "runnable":
             return self.workers[prefer]
-        for i in self.order:
-            w = self.workers[i]
+        order = self.order
+        start = 0
+        if after is not None and after.idx in order:
+            start = order.index(after.idx) + 1
+        for k in range(len(order)):
+            w = self.workers[order[(start + k) % len(order)]]
             if w.state == "runnable" and w is not after:
                 return w
         if after is not None and after.state == "runnable":
@@ -169,14 +179,27 @@ class Scheduler:
     def _tracer(self, idx):
         traced = self.traced
 
+        line_funcs = self.line_funcs
+
+        def where(frame):
+            return "%s:%d" % (frame.f_code.co_filename.rsplit("/", 1)[-1], frame.f_lineno)
+
         def local(frame, event, arg):
             if event == "line":
-                self.yield_point(idx, "%s:%d" % (frame.f_code.co_filename.rsplit("/", 1)[-1], frame.f_lineno))
+                self.yield_point(idx, where(frame))
             return local
+
+        def local_calls(frame, event, arg):
+            if event == "return":
+                self.yield_point(idx, where(frame))
+            return local_calls
 
         def glob(frame, event, arg):
             if event == "call" and frame.f_code.co_filename.endswith(traced):
-                return local
+                if line_funcs is None or frame.f_code.co_name in line_funcs:
+                    return local
+                self.yield_point(idx, where(frame))
+                return local_calls
             return None
 
         return glob
